@@ -20,8 +20,9 @@ Definition foreign_kwargs (p : params) : bool :=
 Definition ok_opt (test : num -> bool) (o : option num) : bool :=
   match o with None => true | Some n => test n end.
 
-(** min_branch_length is positive (not NaN); constr_iterations is a non-negative int *)
-Definition ok_mbl (p : params) : bool := ok_opt gt0 (p_min_branch_length p).
+(** min_branch_length is positive and finite (not NaN, not inf); constr_iterations is a
+    non-negative int *)
+Definition ok_mbl (p : params) : bool := ok_opt (fun n => gt0 n && finite n) (p_min_branch_length p).
 Definition ok_constr (p : params) : bool := ok_opt (fun n => is_int n && ge0 n) (p_constr_iterations p).
 Definition ok_maxiter (p : params) : bool := ok_opt gt0 (p_max_iterations p).
 (** mutation rate given and positive *)
@@ -85,7 +86,7 @@ Definition is_variational (p : params) : bool :=
 Definition listed_invalid (p : params) (f : tsfacts) : bool :=
   match p_method p with Some MUnknown => true | _ => false end   (* unknown method *)
   || given (p_recombination_rate p)                               (* recombination rate *)
-  || negb (ok_mbl p)                                              (* non-positive / NaN min_branch_length *)
+  || negb (ok_mbl p)                                              (* non-positive / NaN / infinite min_branch_length *)
   || negb (ok_constr p)                                           (* negative / non-integer constr_iterations *)
   || is_variational p &&
      (negb (ok_maxiter p)                                         (* max_iterations <= 0 *)
@@ -478,5 +479,5 @@ Lemma example_nonvacuous :
   parse_result vg_params = inr [RTreeSequence; RFit] /\
   listed_invalid (set_mbl vg_params (Some (NFloat XNaN))) nice_ts = true /\
   decide (set_mbl vg_params (Some (NFloat XNaN))) nice_ts = Reject VE T_min_branch_length /\
-  decide (set_mbl vg_params (Some (NFloat XPInf))) nice_ts = Proceed.
+  decide (set_mbl vg_params (Some (NFloat XPInf))) nice_ts = Reject VE T_min_branch_length.
 Proof. vm_compute. auto. Qed.
